@@ -46,6 +46,13 @@ CLAIMED["C05"] = dict(
         "with a handler un-run (lost wake-up) or a task stuck on the mutex (deadlock, including handlers that post), Pending()/Posted() exact at quiescence. Half of the workers run the same generator "
         "on a race-detector build in which only sonic is instrumented and the baton between tasks is a raw pipe the detector cannot see: a report is a violation with the tape attached.",
    note="The scheduler-aware sync.Mutex shim is backed by a real mutex so lock edges stay visible to the detector; the shim's Read/Write reproduce the acquire/release edges of syscall.Read/Write. checkptr is disabled in the race build (sonic's epoll user-data cast).")
+CLAIMED["C18"] = dict(
+   technique="deterministic simulation: grammar-generated server responses, seeded segmentation and server-close points, scheduled handshake goroutine",
+   text="The real Handshake/AsyncHandshake run against a simulated server (stub net.Conn over the stub kernel; AsyncHandshake's goroutine is a scheduler-controlled task, half of the workers on the race build). "
+        "Responses come from a grammar (status, reason phrase, header set/order/letter case/optional whitespace, right/wrong/missing accept key, missing or wrong Upgrade), are cut at tape-chosen offsets (directed: one cut walking through the whole response), "
+        "carry 0-3 piggy-backed frames, and the server may close or reset after any byte. Oracle: the request parses (independent HTTP parser) with all mandated headers, a fresh 16-byte key and the caller's headers; success iff the independent evaluator of the three conditions says so; "
+        "on failure State() is terminated, every read/write API refuses and nothing reaches the wire; after success the piggy-backed messages then later ones are delivered exactly; 1-3 handshakes per Stream with checks that nothing of an earlier session is read or written.",
+   note="Descriptor release after a failed handshake is judged by C13's census, not here. A reset during the response makes either outcome legitimate.")
 
 NOT_YET = {
 }
